@@ -38,12 +38,13 @@ try:
             res["baseline"] = t.stdout.strip().splitlines()[0]
             if t.returncode != 0:
                 print("BASELINE BROKEN:", t.stdout); sys.exit(3)
-        shutil.copytree(seed, os.path.join(repo, "_seed"), dirs_exist_ok=True)
+        seed_root = seed if os.path.basename(seed.rstrip("/")) == "_seed" or not os.path.basename(os.path.dirname(seed.rstrip("/"))) == "_seed" else os.path.dirname(seed.rstrip("/"))
+        shutil.copytree(seed_root, os.path.join(repo, "_seed"), dirs_exist_ok=True)
         if demo_src and place:
             dst = os.path.join(repo, place)
             os.makedirs(os.path.dirname(dst), exist_ok=True)
             shutil.copy(demo_src, dst)
-        d = sh(meta["demo_cmd"].replace(os.path.abspath(src), repo), repo, timeout=900)
+        d = sh(meta["demo_cmd"].replace(os.path.abspath(src), repo).replace(os.path.abspath(src).split("/_seed")[0], repo), repo, timeout=900)
         res["demo_" + variant] = d.returncode
     print("baseline:", res.get("baseline"), "| demo with patch rc=%s, without rc=%s" % (res["demo_with"], res["demo_without"]))
     if res["demo_with"] == 0 or res["demo_without"] != 0:
